@@ -71,13 +71,13 @@ def gen_history(rng, cfg, nops, soft_cap=24, p_over=0.03, allow_alias=True, allo
     lines = []
     P = cfg.pool
     W = [('push', 10), ('pushm', 4), ('pushs', 3), ('emb', 5), ('embs', 2), ('ins', 8), ('insm', 3), ('inss', 4),
-         ('insn', 6), ('insns', 4), ('insr', 6), ('insri', 2), ('emp', 5), ('emps', 3), ('era', 7), ('eran', 6),
+         ('insn', 6), ('insns', 4), ('insr', 6), ('insri', 2), ('emp', 5), ('emps', 3), ('empa', 2), ('era', 7), ('eran', 6),
          ('pop', 4), ('popv', 2), ('clr', 2), ('asn', 3), ('asns', 2), ('asr', 3), ('asri', 1), ('rsz', 4),
          ('rszv', 3), ('rszs', 1), ('rsv', 3), ('shr', 3), ('apr', 3), ('apri', 1), ('apn', 2), ('apv', 2),
          ('apvs', 1), ('cpy', 3), ('mov', 4), ('swp', 4), ('cct', 2), ('mct', 3), ('at', 2), ('cmp', 2)]
     if not allow_alias:
         W = [w for w in W if not w[0].endswith('s') or w[0] in ('ins',)]
-        W = [w for w in W if w[0] not in ('pushs', 'embs', 'inss', 'insns', 'emps', 'asns', 'rszs', 'apvs')]
+        W = [w for w in W if w[0] not in ('pushs', 'embs', 'inss', 'insns', 'emps', 'empa', 'asns', 'rszs', 'apvs')]
     if not allow_input_it:
         W = [w for w in W if w[0] not in ('insri', 'asri', 'apri')]
     if ops_filter:
@@ -99,7 +99,7 @@ def gen_history(rng, cfg, nops, soft_cap=24, p_over=0.03, allow_alias=True, allo
             room = max(0, cap - sz)
             return rng.randrange(0, min(maxextra, room) + 1)
         p = rng.randrange(0, 64)
-        if strict and sz >= cap and op in ('push', 'pushm', 'emb', 'pushs', 'embs', 'ins', 'insm', 'emp', 'inss', 'emps'):
+        if strict and sz >= cap and op in ('push', 'pushm', 'emb', 'pushs', 'embs', 'ins', 'insm', 'emp', 'inss', 'emps', 'empa'):
             op = 'pop'
         if strict and op == 'rsv':
             lines.append(f'rsv {c} {rng.randrange(0, cap + 1)}'); continue
@@ -114,7 +114,7 @@ def gen_history(rng, cfg, nops, soft_cap=24, p_over=0.03, allow_alias=True, allo
             continue
         if op in ('ins', 'insm', 'emp'):
             lines.append(f'{op} {c} {p} {rng.randrange(1,100)}'); sim.sz[c] = min(sz + 1, hard); continue
-        if op in ('inss', 'emps'):
+        if op in ('inss', 'emps', 'empa'):
             lines.append(f'{op} {c} {p} {rng.randrange(0,64)}')
             if sz > 0: sim.sz[c] = min(sz + 1, hard)
             continue
